@@ -39,4 +39,22 @@ var metas = map[string]*meta{
 		Rule:        "every sequence over a 59-element alphabet (USER/PASS/APOP with and without arguments, STAT, LIST/UIDL/DELE/RETR with n∈{1,2,3,0,-1,99,x,4294967297}, TOP variants, RSET, NOOP, QUIT, CAPA, garbage, empty line, plus external delivery and external deletion of message 1/2 as events) to the full-tree depth, then explicit-state search keyed on (POP3 model state, store, last command); mailbox initially holding 3/0/2 messages (one with dot-lines, one with bare LF and no final newline); mem and file; every prefix is also the 'connection dropped here' case: after each sequence the client closes without QUIT unless QUIT was the last command, and the store must equal before∖marked iff QUIT was accepted in TRANSACTION. Sessions run in synctest bubbles (exact 'no reply'/'extra reply'/'never ends'). Non-trivial = last step logged in, marked a message or mutated the store externally; distinct sequences.",
 		Assumptions: []string{"replies in the AUTHORIZATION state are not pinned beyond well-formedness; the model follows the observed status", "RETR/TOP of a message marked deleted or deleted externally is not pinned (outside the statement)", "built with go1.26.8 (testing/synctest)"},
 	},
+	"C05": {
+		ID: "C05", Level: "exploration",
+		Parts: []part{{Name: "all", Bin: "std", Shards: 16}},
+		Rule: "(i) predicates: full product of DefaultAccept × DefaultStore × accept/reject/store/discard lists (every subset of size ≤1 quick / ≤2 thorough of {a.test, B.Test, sub.a.test}) × reject-origin lists (subsets of {a.test, *.test, ?.test, A.TEST, a.*, *}) loaded through the real config.Process from the environment, probed on 7 domains incl. mixed case and empty, against the documented rule; (ii) live sessions for every combination of the switches and size-≤1 lists × MaxRecipients∈{1,2,3} × 3 recipient orders (two senders each): reply class of every MAIL/RCPT, the recipient limit, and the stored set after DATA; all reject-origin subsets × 8 senders; (iii) MatchWithWildcards(p,s) for every p ≤5 over {a,b,*,?} and s ≤5 over {a,b} (thorough ≤6 with '.') against a recursive reference. Non-trivial = a configuration with a non-empty list / a session that delivered / a pattern containing a wildcard; distinct by construction.",
+		Assumptions: []string{"model.Policy transcribes doc/config.md", "reply class (2xx vs not) is the observable of accept/reject"},
+	},
+	"C06": {
+		ID: "C06", Level: "exploration",
+		Parts: []part{{Name: "all", Bin: "std", Shards: 16}},
+		Rule: "limit L∈{1,10,100,1000,5000} (thorough: +9 more incl. 65536 and 10^6) × data size∈{0, L-3…L+3, 2L, 10L} (thorough: L±60) × declared SIZE∈{absent, truthful, L, L+1, 1, 2^31, x} × backend; each case is a live session: MAIL(+SIZE), RCPT, DATA, then a small follow-up transaction on the same session. With s = data bytes after un-stuffing with LF endings and S = the same with CRLF: S≤L ⇒ acknowledged and stored; s>L ⇒ refused (at MAIL when the declared size exceeds L, else after the final dot) and nothing stored; s≤L<S either; a declared SIZE ≤ L is never refused at MAIL; the follow-up is stored. Non-trivial = the big message was accepted; distinct cases.",
+		Assumptions: []string{"sizes are a boundary ladder around each limit, not every size", "the CRLF/LF indifference band at the limit is accepted either way"},
+	},
+	"C14": {
+		ID: "C14", Level: "exploration",
+		Parts: []part{{Name: "seq", Bin: "std", Shards: 16}},
+		Rule: "every sequence over a 32-op alphabet (SMTP delivery of a multipart message with attachment; REST list/get/source/PATCH-seen/DELETE/purge; web UI message/html/source/attach; every method of the bundled Go client incl. the header/message convenience methods; refs ∈ {1st id, 2nd id, latest, unknown}) to the full-tree depth, then explicit-state search on the store state; × mailbox name ∈ {plain, address form Plain+x@d.test, names containing ? # % & ' /} × backend × base path ∈ {'', /pre}; requests go through the real web.Router in-process, the Go client through a RoundTripper onto the same router. After every call: status (404 for every missing message, never a handler panic), body vs the model, and the store itself vs the effect the call should have had. Non-trivial = last op delivered or changed the store; distinct sequences.",
+		Assumptions: []string{"HTTP clients percent-encode path segments (url.PathEscape); the Go client encodes as it does", "handler panics are caught at Router.ServeHTTP (net/http would drop the connection)"},
+	},
 }
